@@ -18,7 +18,7 @@ BOUNDS = {
              "with every int8/bool value; Unmarshal of the same families (plus float32/float64 with the string option on 21 concrete texts, and an any target) on "
              "the listed skeletons with 1-2 unconstrained bytes in member names, values, quoted numbers, duplicates, unknown members, with targets pre-filled "
              "by sentinels (compared field by field; untouched on syntax errors); Decoder call sequences of 3 calls from {Decode, Token, More} + InputOffset "
-             "after every call on 8 skeletons (UseNumber, DisallowUnknownFields variants) until the first error; Encoder with SetIndent/SetEscapeHTML variants, "
+             "after every call on 7 skeletons (UseNumber, DisallowUnknownFields variants) until the first error; Encoder with SetIndent/SetEscapeHTML variants, "
              "two values. Outside: longer inputs, other prefix/indent strings, other Go types (floats on symbolic text, time, wide integers, channels...), "
              "v1.Number/encoding/json.Number (different types in the two packages), Decoder.Buffered, calls after the first error, error message text and "
              "offsets, the target value after a semantic error, non-empty destination contents other than \"#\".",
@@ -111,12 +111,12 @@ ALL3 = ["ok", "syntax-error", "semantic-error"]
 # Unmarshal: (kind, variant, skeleton, covers, quick?)
 TU = [
     # struct tags: names (case-insensitive), kinds, `string` option, duplicates, unknown members
-    (0, 0, '{"?":1}', ALL3, 1), (0, 0, '{"a":??}', ALL3, 1), (0, 0, '{"e":"?"}', ALL3, 1), (0, 0, '{"e":?}', ["syntax-error", "semantic-error"], 1),
+    (0, 0, '{"?":1}', ALL3, 1), (0, 0, '{"a":??}', ALL3, 0), (0, 0, '{"a":?}', SYN, 1), (0, 0, '{"e":"?"}', ALL3, 1), (0, 0, '{"e":?}', ["syntax-error", "semantic-error"], 1),
     (0, 0, '{"e":"-?"}', ALL3, 0), (0, 0, '{"e":"nul?"}', ["ok", "semantic-error"], 1), (0, 0, '{"h":"tru?"}', ["ok", "semantic-error"], 1), (0, 0, '{"h":"?"}', ["syntax-error", "semantic-error"], 0),
     (0, 0, '{"i":"\\"?\\""}', SYN, 1), (0, 0, '{"i":"?"}', ["syntax-error", "semantic-error"], 0), (0, 0, '{"bee":?,"BEE":"x"}', ["syntax-error", "semantic-error"], 1), (0, 0, '{"a":1,"A":?}', SYN, 1),
     (0, 0, '{"x":?}', SYN, 0), (0, 0, '{"u":?,"f":?}', SYN, 0), (0, 0, '{"-":"?"}', SYN, 1), (0, 0, '{"a":n?ll}', SYN, 0), (0, 0, '{"a":12?}', ALL3, 1),
     (0, 0, '{"a":-12?}', ALL3, 0), (0, 0, '{"a":1?0}', ALL3, 1), (0, 0, '{"d":?e0}', ["syntax-error", "semantic-error"], 0), (0, 0, '{"a":1}?', SYN, 1), (0, 0, '[?]', ["syntax-error", "semantic-error"], 0),
-    (0, 0, '??', ALL3, 1), (0, 0, '{"a":1?"d":2}', SYN, 0), (0, 0, '{"\\u00?1":5}', SYN, 1), (0, 0, '{"??":true}', SYN, 0), (0, 0, '{"BE?":"z"}', SYN, 0),
+    (0, 0, '??', ALL3, 0), (0, 0, '{"a":1?"d":2}', SYN, 0), (0, 0, '{"\\u00?1":5}', SYN, 1), (0, 0, '{"??":true}', SYN, 0), (0, 0, '{"BE?":"z"}', SYN, 0),
     (0, 0, '{"e":"??"}', ALL3, 1), (0, 0, '{"i":"nul?"}', ["semantic-error"], 1), (0, 0, '{"i":"\\"\\\\ud8?0\\""}', [], 0),
     # embedding
     (1, 0, '{"?":1}', ALL3, 1), (1, 1, '{"?":2}', ALL3, 1), (1, 0, '{"k":?}', SYN, 1), (1, 0, '{"v":tru?}', SYN, 0), (1, 1, '{"Y":"?"}', SYN, 0), (1, 0, '{"%E2%84?":1}', SYN, 1),
@@ -140,7 +140,7 @@ TU = [
     (6, 0, '{"r":?}', SYN, 1), (6, 0, '{"r": [?, "?"] }', SYN, 0), (6, 1, '{"r":nul?}', SYN, 1), (6, 0, '{"rp":?}', SYN, 0), (6, 1, '{"rp":nul?}', SYN, 1), (6, 0, '{"ro":"?"}', SYN, 0),
     (6, 0, '{"v":?}', SYN, 1), (6, 0, '{"v": {"?":?}}', SYN, 0), (6, 1, '{"v":nul?}', SYN, 1),
     # any
-    (8, 0, '??', SYN, 0), (8, 0, '[?,?]', SYN, 1), (8, 0, '{"?":?}', SYN, 1), (8, 0, '"\\??"', SYN, 0), (8, 0, '"\\u00?0"', SYN, 0), (8, 0, '"\\ud83?"', SYN, 1), (8, 0, '"%E2?"', SYN, 1),
+    (8, 0, '??', SYN, 0), (8, 0, '[?,?]', SYN, 1), (8, 0, '{"?":?}', SYN, 0), (8, 0, '{"a":?}', SYN, 1), (8, 0, '"\\??"', SYN, 0), (8, 0, '"\\u00?0"', SYN, 0), (8, 0, '"\\ud83?"', SYN, 1), (8, 0, '"%E2?"', SYN, 1),
     (8, 0, '-?.?', SYN, 0), (8, 0, '1e?', SYN, 0), (8, 1, '{"?":1}', SYN, 1), (8, 0, ' ?1? ', SYN, 0), (8, 0, '"\\ud83d\\ud?00"', SYN, 0),
     # strings
     (9, 0, '{"s":"??"}', SYN, 0), (9, 0, '{"s":"\\??"}', SYN, 0), (9, 0, '{"s":"%FF?"}', SYN, 1), (9, 1, '{"k":{"?":?}}', SYN, 0), (9, 1, '{"k":{"a":?}}', SYN, 1), (9, 0, '{"s":"?"}', SYN, 1), (9, 0, '{"S":?}', ["syntax-error"], 0), (9, 0, '{"s":"\\ud8?0\\udc00"}', SYN, 0),
@@ -159,7 +159,7 @@ TD = [
     ('[1 ,?]', 2, True, False, ["decoded", "token"], 1),
     ('{"a":1,"?":2} ', 1, False, True, ["decoded", "token", "error"], 1),
     ('{"a":1,"?":2} ', 1, False, False, ["decoded", "token"], 0),
-    (' 1 ?', 2, False, False, ["decoded", "token", "error"], 1),
+    (' 1 ?', 2, False, False, ["decoded", "token", "error"], 0),
     ('1?2', 2, True, False, ["decoded", "token"], 0),
     ('{"a" :? , "b":2}', 2, False, False, ["decoded", "token"], 0),
     ('[]?', 2, False, False, ["token", "token-eof"], 1),
@@ -167,6 +167,7 @@ TD = [
     # Decode into an any (needs reflect.Value.Equal on a zero Value and Value.NumMethod in the engine)
     ('[1 ,?]', 0, False, False, ["decoded", "token", "more"], 0),
     ('[1 ,?]', 0, True, False, ["decoded", "token"], 0),
+    ('{"a":?} 7', 0, False, False, ["decoded", "token", "more"], 0),
     ('["?",{"b":[?]}]', 0, False, False, ["decoded", "token"], 0),
     ('[tru?,nul?]', 0, False, False, ["decoded", "token"], 0),
 ]
